@@ -20,6 +20,9 @@ class DirectTask:
         self.tick_hooks = {}
         self.state = "runnable"
         self.fork_zero = False
+        self.spin_mark = -1.0
+        self.spin_n = 0
+        self.spun = False
 
 
 class PidWorld:
